@@ -416,3 +416,71 @@ func vxH_C07_splice() {
 	coll.Close()
 	store.Close()
 }
+
+func init() { vxRegister("vxH_C07_reclaim", vxH_C07_reclaim) }
+
+// vxH_C07_reclaim: garbage is reclaimed by a full compaction also when the
+// newest segment ends with entries that no other segment reaches (the merge
+// copies the tail of the last segment). Round 1 sets "a"; round 2 is one
+// batch with symbolic operations (Set or Del) on "m" and "z"; both rounds
+// under CompactionForce. Afterwards the store has one segment, no deletion
+// marker (neither in the footer's counters nor when iterating with
+// IncludeDeletions), and the content equals the reference.
+func vxH_C07_reclaim() {
+	fs := vxNewFS()
+	so := vxStoreOptions(fs)
+	po := StorePersistOptions{CompactionConcern: CompactionForce}
+	store, coll, err := OpenStoreCollection(fs.dir, so, po)
+	vxAssert("open-ok", err == nil)
+	mk := func(k byte, mayDel bool) vxEnt {
+		var e vxEnt
+		e.k.n, e.k.b[0] = 1, k
+		e.op, e.v.n, e.v.b[0] = OperationSet, 1, vxU8()
+		if mayDel && vxChoose(2) == 1 {
+			e.op, e.v.n = OperationDel, 0
+		}
+		return e
+	}
+	var layers [][]vxEnt
+	r1 := []vxEnt{mk('a', false)}
+	vxExec(coll, r1)
+	layers = append(layers, r1)
+	vxDrain(coll)
+	r2 := []vxEnt{mk('m', true), mk('z', true)}
+	vxExec(coll, r2)
+	layers = append(layers, r2)
+	vxDrain(coll)
+	ss, serr := store.Snapshot()
+	vxAssert("store-snapshot-ok", serr == nil)
+	f := ss.(*Footer)
+	vxAssert("full-compaction-one-segment", len(f.SegmentLocs) <= 1)
+	for _, sl := range f.SegmentLocs {
+		vxObserveU64("deletions-left", sl.TotOpsDel)
+		vxAssert("full-compaction-no-deletions", sl.TotOpsDel == 0)
+	}
+	it, ierr := ss.StartIterator(nil, nil, IteratorOptions{IncludeDeletions: true, SkipLowerLevel: true})
+	vxAssert("iter-ok", ierr == nil)
+	if it != nil {
+		for {
+			ex, _, _, cerr := it.CurrentEx()
+			if cerr == ErrIteratorDone {
+				break
+			}
+			vxAssert("no-deletion-entry-left", ex.Operation != OperationDel)
+			if it.Next() != nil {
+				break
+			}
+		}
+		it.Close()
+	}
+	for _, kb := range []byte{'a', 'm', 'z'} {
+		var K vxKey
+		K.n, K.b[0] = 1, kb
+		got, gerr := ss.Get([]byte{kb}, ReadOptions{})
+		vxAssert("get-ok", gerr == nil)
+		vxAssert("content-equals-reference", vxGotIs(got, vxRefGet(K, layers...)))
+	}
+	ss.Close()
+	coll.Close()
+	store.Close()
+}
